@@ -1,0 +1,17 @@
+//go:build verif
+
+// Contracts for the verification machinery in /verif (comment-only; compiled only with -tags verif).
+
+package jws
+
+//@ func (Headers).stringValue
+//@   results v, ok
+//@   ensures ok == (key in h && isType(h[key], "string"))
+//@   ensures ok ==> v == unbox(h[key], "string")
+//@ func (Headers).Algorithm
+//@   results v, ok
+//@   ensures ok == ("alg" in h && isType(h["alg"], "string"))
+//@   ensures ok ==> v == unbox(h["alg"], "string")
+//@ func (*JWK).Validate
+//@   requires jwk != nil
+//@   ensures (result == nil) == (jwk.Crv != "" && jwk.Kty != "" && jwk.X != "")
